@@ -314,6 +314,42 @@ def near_int(x, rel=1e-9):
     return abs(x - round(x)) <= rel * max(1.0, abs(x))
 
 
+def sizing_after_type_change(spec, st, obs, rs, rng):
+    """the sizing rule of the *current* server type holds after the type of a server is changed in place"""
+    if st != "ok":
+        return [], 0
+    from harness.history import Live
+    servers, _, _ = reachable(spec)
+    cands = [n for n in servers if spec["servers"][n].get("fixed_nb_of_instances") is None]
+    if not cands:
+        return [], 0
+    try:
+        live = Live(spec)
+    except Exception:  # noqa
+        return [], 0
+    vs, ev = [], 0
+    n = rng.choice(cands)
+    walk = []
+    for _ in range(rng.choice([1, 2, 2, 3])):
+        cur = live.spec["servers"][n]["server_type"]
+        new = rng.choice([t for t in ("autoscaling", "on-premise", "serverless") if t != cur])
+        op = {"op": "settype", "kind": "servers", "name": n, "value": new}
+        if live.apply(op)[0] != "ok":
+            break
+        walk.append(new)
+        obs2 = live.rs.observe()
+        vs2, e2 = sizing(live.spec, "ok", obs2, live.rs, rng)
+        ev += e2
+        for v in vs2:
+            v["signature"] += ":after-type-change"
+            v["detail"] = f"after changing the type of {n} in place ({spec['servers'][n]['server_type']} -> {' -> '.join(walk)}): " + v["detail"]
+            v.setdefault("replay", {})["type_walk"] = [n] + walk
+        vs += vs2
+        if vs2:
+            break
+    return vs, ev
+
+
 def sizing(spec, st, obs, rs, rng):
     vs, ev = [], 1
     if st == "err":
